@@ -22,6 +22,18 @@ func VpC07VariablesText() {
 		vp.Assume(s[i] != ' ' && s[i] != '\t') // the field separator
 	}
 	pre := []string{"", "ARGS:", "ARGS|", "!ARGS:", "&", "TX:/", "XML:"}[vp.Choice("prefix", 7)]
+	// a regex key /.../ made of symbolic bytes is compiled once per concrete pattern (the engine
+	// splits on every pattern byte): at most one arbitrary byte between two slashes
+	open := -2
+	if pre == "TX:/" {
+		open = -1
+	}
+	for i := 0; i < len(s); i++ {
+		if s[i] == '/' {
+			vp.Assume(open == -2 || i-open-1 <= 1)
+			open = i
+		}
+	}
 	vpC07Compile("SecRule "+pre+s+" \"@unconditionalMatch\" \"id:1,phase:1,pass\"", true)
 	vp.Reached("end")
 }
